@@ -1,12 +1,12 @@
 #!/bin/sh
-# usage: sweep.sh <tier> <seed...>   — runs every registered check at the given tier and seeds; prints one line per run.
+# usage: [PROPS="C01 C02"] sweep.sh <tier> <seed...>   — runs every registered check at the given tier and seeds; prints one line per run.
 TIER=${1:-quick}; shift
 SEEDS=${*:-1}
 cd "$(dirname "$0")/.."
 sh scripts/setup.sh >/dev/null 2>&1 || { echo "setup failed"; exit 2; }
 RC=0
 for S in $SEEDS; do
-  for P in C01 C02 C03 C04 C05 C06 C07 C08 C09 C10 C11 C12 C13 C14 C15 C16 C17 C18 C19 C20; do
+  for P in ${PROPS:-C01 C02 C03 C04 C05 C06 C07 C08 C09 C10 C11 C12 C13 C14 C15 C16 C17 C18 C19 C20}; do
     OUT=$(VERIF_SEED=$S ./bin/vcheck -p $P -tier $TIER 2>&1); E=$?
     echo "$OUT" | grep -E "^(VIOLATION|KNOWN-FINDING|INCONCLUSIVE)" | cut -c1-300
     echo "$OUT" | tail -1 | cut -c1-200 | sed "s/^/[exit=$E] /"
